@@ -10,7 +10,7 @@ from props.c18 import lean_order_worlds
 
 THEOREMS = ["InfOCF.C19_constraint_iff", "InfOCF.C19_system_iff", "InfOCF.C19_two_sums_wrong", "InfOCF.C19_incremental",
             "InfOCF.C19_fast_eq_alt", "InfOCF.C17_front_loop_exact", "InfOCF.C19_mask_eq_eval", "InfOCF.C19_pareto_box", "InfOCF.C19_zero_prior_is_crep"]
-RULE = ("random prior rankings over 1-4 atoms (zero, random, sparse) x 1-4 revision conditionals (literal and compound, duplicates of "
+RULE = ("random prior rankings over 1-5 atoms (zero, random, sparse) x 1-4 revision conditionals (literal and compound, duplicates of "
         "antecedents, unfalsifiable and contradictory ones) x gamma modes (gamma+ fixed to zero / free) x fixed-value maps: c_revision's "
         "result is checked by the driver (non-negative integers, fixed values respected, revised ranking accepts every revision "
         "conditional, gamma- Pareto-minimal by the exact box test when gamma+ = 0); a None result is confronted with an exhaustive search of "
@@ -276,7 +276,7 @@ def recheck(case):
 
 
 def gen_case(rng):
-    n = rng.randint(1, 4)
+    n = rng.choice([1, 2, 2, 3, 3, 4, 4, 5])
     N = 2 ** n
     style = rng.random()
     if style < 0.35:
@@ -286,7 +286,7 @@ def gen_case(rng):
     else:
         ranks = [rng.choice([0, 0, 5]) for _ in range(N)]
     k = rng.randint(1, 4 if n > 1 else 2)
-    keys = rng.sample(range(1, 9), k)
+    keys = rng.sample(range(1, 9), k) if rng.random() < 0.6 else rng.sample([1, 10, 11, 12, 2, 20, 21, 3, 13], k)
     conds = []
     for key in keys:
         r = rng.random()
@@ -309,7 +309,7 @@ def gen_case(rng):
         modes.append({"gpz": False, "fixed_plus": {str(fk): rng.randint(0, 2)}})
     if rng.random() < 0.4:
         modes.append({"gpz": rng.random() < 0.5, "use_model": True})
-    pool_keys = list(range(1, 7))
+    pool_keys = list(range(1, 7)) if rng.random() < 0.6 else [1, 10, 11, 2, 20, 3]
     pool = []
     for key in pool_keys:
         if n >= 2 and rng.random() < 0.5:
